@@ -21,6 +21,7 @@ def showErr : Option ApplyErr → String
 def step (s : DSt) (line : String) : DSt × String :=
   match words line with
   | ["errh", b] => ({ s with errH := bool! b }, "errh")
+  | ["opterrh"] => ({ s with errH := true }, "opterrh")
   | ["reg", src, dst, ret, fails, tag, nil] =>
     let u : Upcaster := ⟨nat! src, nat! dst, nat! ret, bool! fails, nat! tag⟩
     match register s.g u (bool! nil) with
